@@ -33,9 +33,6 @@ type Outcome struct {
 	WallMs    int64
 }
 
-// parentGrace is how long the parent waits beyond the child's own limits
-// before it sends SIGQUIT itself (the child's watchdog normally fires first).
-const parentGrace = 45 * time.Second
 
 func runChild(c *Case) *Outcome {
 	out := &Outcome{}
